@@ -221,6 +221,9 @@ func minaCurve(c *refcurve.Curve, gy string) *refcurve.Curve {
 		panic("Mina generator not on " + c.Name + ": " + err.Error())
 	}
 	cc.G = g
+	if !cc.IsNeutral(cc.ScalarMul(g, cc.N)) {
+		panic("Mina generator of " + c.Name + " is not of order N")
+	}
 	return &cc
 }
 
